@@ -38,7 +38,12 @@ type Batch struct {
 }
 
 // HarnessRoot is the directory of the harness module.
-var HarnessRoot = "/verif/harness"
+var HarnessRoot = func() string {
+	if v := os.Getenv("VERIF_ROOT"); v != "" {
+		return v + "/harness"
+	}
+	return "/verif/harness"
+}()
 
 // NewBatch creates the directory layout for a case.
 func NewBatch(workDir string, c *desc.Case, m *gen.Meta) (*Batch, error) {
